@@ -8,7 +8,7 @@ pkg=$(cat $src/demo_pkg.txt | tr -d '\n ')
 python3 - <<PY
 import json
 m=json.load(open('$src/meta.json'))
-out={"property":"$id","breaks":m.get("summary",""),"needs":m.get("needs",""),"demo_pkg":"$pkg","demo_cmd":"go test -vet=off -count=1 -run Seed ./$pkg/","origin":"sub-agent seed2-$id (second round: a change different in kind from seeded/$id)"}
+out={"property":"$id","breaks":m.get("summary",""),"needs":m.get("needs",""),"demo_pkg":"$pkg","demo_cmd":"go test -vet=off -count=1 -run Seed ./$pkg/","origin":"sub-agent seed$round-$id (round $round: a change different in kind from the earlier seeded changes for $id)"}
 json.dump(out,open('$dst/meta.json','w'),indent=1)
 PY
 /verif/bin/seedconfirm.sh $id-$round $pkg
